@@ -162,3 +162,32 @@ func (e *End) SetWriteDeadline(t time.Time) error { return nil }
 
 // Peer returns the other end.
 func (e *End) Peer() *End { return e.peer }
+
+// Listener is a net.Listener whose Accept is a visible wait under the scheduler.
+type Listener struct {
+	q      []net.Conn
+	closed bool
+}
+
+func (l *Listener) Accept() (net.Conn, error) {
+	if !vsched.Active() {
+		return nil, net.ErrClosed
+	}
+	vsched.WaitUntil("accept", func() bool { return len(l.q) > 0 || l.closed })
+	if len(l.q) > 0 {
+		c := l.q[0]
+		l.q = l.q[1:]
+		return c, nil
+	}
+	return nil, net.ErrClosed
+}
+
+func (l *Listener) Close() error   { l.closed = true; return nil }
+func (l *Listener) Addr() net.Addr { return addr{} }
+
+// Dial creates a connection pair, hands the server end to Accept and returns the client end.
+func (l *Listener) Dial(name string) *End {
+	c, s := Pair(name+"-client", name+"-server")
+	l.q = append(l.q, s)
+	return c
+}
